@@ -52,7 +52,7 @@ CAND = {
                ("None", V), ("(None, None, None)", V)],
     "path": [("'/a/b'", V), ("''", V), ("windows_path('C:\\\\a')", V), ("PWP('D:\\\\x')", V), ("5", W), ("None", V), ("b'/raw'", W)],
     "command": [("'ls -l'", V), ("'C:\\\\x.exe /a'", V), ("5", W), ("None", V), ("['ls']", W)],
-    "net.ipaddress": [("'1.2.3.4'", V), ("'::1'", V), ("2**32", V), ("'1.2.3'", R), ("'999.1.1.1'", R), ("'1.2.3.4/24'", R), ("'gggg::1'", R), ("-1", R), ("2**128", R),
+    "net.ipaddress": [("'1.2.3.4'", V), ("'::1'", V), ("2**32", V), ("float(2**32)", R), ("1", V), ("1.0", R), ("True", W), ("3232235777", V), ("3232235777.0", R), ("'1.2.3'", R), ("'999.1.1.1'", R), ("'1.2.3.4/24'", R), ("'gggg::1'", R), ("-1", R), ("2**128", R),
                       ("None", V), ("''", R)],
     "net.ipnetwork": [("'10.0.0.0/8'", V), ("'::/0'", V), ("'10.0.0.1/8'", R), ("'10.0.0.0/33'", R), ("'x/8'", R), ("None", V), ("''", R)],
     "net.ipv4.Address": [("'1.2.3.4'", V), ("5", V), ("None", V)],
@@ -330,10 +330,16 @@ def run_cross(case):
     gen = lit.ev("dt(2020,1,1,tz=UTC)")
     rec = desc.recordType(_generated=gen)
     outs = []
-    for fname, vspec in (("hs", "[%s]" % spec), ("os", "[%s]" % spec), ("o", spec), ("os", "[%s, %s]" % (spec, spec))):
+    for fname, vspec in (("hs", "[%s]" % spec), ("os", "[%s]" % spec), ("o", spec), ("os", "[%s, %s]" % (spec, spec)), ("os", "<typed list of the home field>")):
         before = obs(rec)
         try:
-            setattr(rec, fname, lit.ev(vspec))
+            if vspec.startswith("<"):
+                # the typed list object another field (of this or another record) holds, handed over as it is
+                donor = desc.recordType(_generated=gen)
+                donor.hs = [lit.ev(spec), lit.ev(spec)]
+                setattr(rec, fname, donor.hs)
+            else:
+                setattr(rec, fname, lit.ev(vspec))
             exc = None
         except Exception as e:  # noqa: BLE001
             exc = e
